@@ -26,7 +26,7 @@ import numpy as np
 
 from . import lib
 
-GEN = os.path.join(lib.COQ, 'gen')
+GEN = lib.GEN
 OBL = os.path.join(GEN, 'obl')
 GENFLAGS = ['-R', GEN, 'PMGen']
 MREPS = ['F', 'T', 'aF', 'aT', 'mix', 'bview']
@@ -64,6 +64,8 @@ def regenerate(ctx, Pm):
                 pass
     env = dict(os.environ)
     env['VERIF_REPO'] = lib.REPO
+    env['VERIF_GEN'] = lib.GEN
+    env['VERIF_BUILD'] = lib.BUILD
     env['PYTHONPATH'] = lib.VERIF
     t0 = time.time()
     p = subprocess.run([sys.executable, '-m', 'tools.regen.tracer_c16'], cwd=lib.VERIF, env=env,
